@@ -30,8 +30,8 @@ import ast
 from typing import List, Optional
 
 from ..cfg import cfg_of, origins
-from ..index import AnalysisError, FuncNode, arg_of, calls_in, const, enclosing_class, enclosing_function, kwarg, last_attr, norm, short, walk_local
-from ..iohelpers import COMMON, LINTED_FILE, LINTER, RUNNER, Writer, all_calls, fq, is_self_attr, map_args, param_of, params, qual, returns_of
+from ..index import AnalysisError, arg_of, calls_in, const, enclosing_class, enclosing_function, kwarg, last_attr, norm, walk_local
+from ..iohelpers import COMMON, LINTED_FILE, LINTER, RUNNER, Writer, all_calls, fq, is_self_attr, map_args, param_of, qual, returns_of
 
 OK_READ = ("strict", "surrogateescape")
 LOSSY = ("ignore", "replace", "backslashreplace", "xmlcharrefreplace", "namereplace")
@@ -281,7 +281,7 @@ def _r11c(chk, repo, W, L) -> None:
 
 def _r11d(chk, repo, W, L) -> None:
     lm = repo.mod(LINTER)
-    lcls = repo.cls(LINTER, "Linter")
+    repo.cls(LINTER, "Linter")  # anchor
     hops = 0
     # 1. loader: returned encoding is the one used by the reader
     cfgL = cfg_of(L)
